@@ -19,6 +19,7 @@ import PdbVerif.Proofs.RmsdInv
 import PdbVerif.Proofs.RmsdMsd
 import PdbVerif.Proofs.RmsdDemo
 import PdbVerif.Proofs.RmsdKernel
+import PdbVerif.Proofs.RmsdRaw
 import PdbVerif.Model.Parse
 
 set_option linter.unusedVariables false
@@ -82,6 +83,62 @@ example : (match lrmsdSql (.ok Demo.dec) (.ok Demo.ref) false with
     | .value f e => (f.length, e.length) | .err _ => (0, 0)) = (2, 2) := by decide +kernel
 /-- … and with enforcement on, the missing CB atom is reported by the i-RMSD routine (it checks every atom) -/
 example : missingSomewhere none Demo.dec Demo.ref = true := by decide
+
+/-! ### 1b. `RawAgrees` is a theorem for parsed files -/
+
+/-- **`RawAgrees` derived.**  If the parser accepts the file (`Model.parse lines = .ok rows`; by `Props.C01.parse_rows` its rows
+    are the wwPDB columns of the padded record texts) and every ATOM record satisfies `RecordSide`, the raw-column readers of
+    the fast routines read exactly the identities and coordinates of the parsed table; the table has one atom per row. -/
+theorem raw_agrees_of_parse (lines : List Str) (rows : List Row) (hp : Model.parse lines = .ok rows) (hs : FileSide lines) :
+    RawAgrees lines (tableOfRows rows) ∧ (tableOfRows rows).length = rows.length :=
+  ⟨rawAgrees_of_parse lines rows hp hs, table_length lines rows hp⟩
+
+/-- one record, both directions of the chain rule spelled out -/
+theorem raw_reader_reads_parsed_record (l : Str) (n : Int) (r : Row) (h : Spec.parseRecord l n = .ok r) (hs : RecordSide l) :
+    ∃ a : Atom, Atom.ofRow r = some a ∧ rawPt l = .ok (ptOf a) :=
+  rawPt_of_parseRecord l n r h hs.1 hs.2
+
+example : FileSide Demo.refLines ∧ FileSide Demo.decLines := by
+  refine ⟨fun l hl _ => ?_, fun l hl _ => ?_⟩ <;>
+  · simp only [Demo.refLines, Demo.decLines, List.mem_cons, List.not_mem_nil, or_false] at hl
+    rcases hl with rfl | rfl | rfl | rfl | rfl <;>
+      exact ⟨by unfold TailBlank; decide, Or.inl (by unfold ChainColumn; decide)⟩
+
+/-- **The four pair theorems for parsed files**: `RawAgrees` replaced by "the files parse and their ATOM records satisfy
+    `RecordSide`"; the tables are the parser's. -/
+theorem pairs_of_parsed_files (dl rl : List Str) (drows rrows : List Row)
+    (hpd : Model.parse dl = .ok drows) (hpr : Model.parse rl = .ok rrows) (hsd : FileSide dl) (hsr : FileSide rl)
+    (hc : Consistent (tableOfRows drows) (tableOfRows rrows)) (src : ZoneSrc) (hsrc : src = .compute ∨ src = .write)
+    (c : Rat) (enforce : Bool) :
+    (match irmsdFast dl rl (.ok (tableOfRows drows)) (.ok (tableOfRows rrows)) src c true enforce with
+      | .value fit ev => fit ≠ [] ∧ ev = fit ∧ (∀ p ∈ fit, p.1.1 = p.2.1) ∧
+          (fit.map idPair).Perm (interfacePairs (tableOfRows drows) (tableOfRows rrows) c)
+      | .err e => (e = .valueError ∧ enforce = true ∧ checkResidues (tableOfRows drows) (tableOfRows rrows) none true = .error .valueError) ∨
+          (e = .typeError ∧ interfacePairs (tableOfRows drows) (tableOfRows rrows) c = [])) ∧
+    (match irmsdSql (.ok (tableOfRows drows)) (.ok (tableOfRows rrows)) none c with
+      | .value fit ev => fit ≠ [] ∧ ev = fit ∧ (∀ p ∈ fit, p.1.1 = p.2.1) ∧
+          (fit.map idPair).Perm (interfacePairs (tableOfRows drows) (tableOfRows rrows) c)
+      | .err e => e = .valueError ∧ interfacePairs (tableOfRows drows) (tableOfRows rrows) c = []) ∧
+    (match lrmsdFast dl rl (.ok (tableOfRows drows)) (.ok (tableOfRows rrows)) src true enforce with
+      | .value fit ev => fit ≠ [] ∧ ev ≠ [] ∧ (∀ p ∈ fit ++ ev, p.1.1 = p.2.1) ∧
+          (fit.map idPair).Perm (ligandFitPairs (tableOfRows drows) (tableOfRows rrows)) ∧
+          (ev.map idPair).Perm (ligandEvalPairs (tableOfRows drows) (tableOfRows rrows))
+      | .err e => (e = .valueError ∧ enforce = true ∧
+            checkResidues (tableOfRows drows) (tableOfRows rrows) (some lrmsdFastNames) true = .error .valueError) ∨
+          (e = .typeError ∧ ligandFitPairs (tableOfRows drows) (tableOfRows rrows) = []) ∨
+          (e = .valueError ∧ ligandEvalPairs (tableOfRows drows) (tableOfRows rrows) = [])) ∧
+    (match lrmsdSql (.ok (tableOfRows drows)) (.ok (tableOfRows rrows)) enforce with
+      | .value fit ev => fit ≠ [] ∧ ev ≠ [] ∧ (∀ p ∈ fit ++ ev, p.1.1 = p.2.1) ∧
+          (fit.map idPair).Perm (ligandFitPairs (tableOfRows drows) (tableOfRows rrows)) ∧
+          (ev.map idPair).Perm (ligandEvalPairs (tableOfRows drows) (tableOfRows rrows))
+      | .err e => (e = .valueError ∧ enforce = true ∧
+            checkResidues (tableOfRows drows) (tableOfRows rrows) (some lrmsdSqlNames) true = .error .valueError) ∨
+          (e = .typeError ∧ ligandFitPairs (tableOfRows drows) (tableOfRows rrows) = []) ∨
+          (e = .valueError ∧ ligandEvalPairs (tableOfRows drows) (tableOfRows rrows) = [])) :=
+  have hd := (raw_agrees_of_parse dl drows hpd hsd).1
+  have hr := (raw_agrees_of_parse rl rrows hpr hsr).1
+  ⟨irmsd_pairs_fast dl rl _ _ hd hr hc src hsrc c enforce, irmsd_pairs_sql _ _ hc c,
+   lrmsd_pairs_fast dl rl _ _ hd hr hc src hsrc enforce, lrmsd_pairs_sql _ _ hc enforce⟩
 
 /-! ### 2. the value depends on the multiset of pairs only -/
 
@@ -335,6 +392,70 @@ theorem kernel_optimal_from_C06 (svd : Mat3 ℝ → Mat3 ℝ × Vec3 ℝ × Mat3
     (hsvd : Proofs.Guards.SvdOK svd (centre (fit.map (·.1))) (centre (fit.map (·.2)))) :
     KernelOptimalAt (Model.kabsch svd eps) fit :=
   kernelOptimalAt_kabsch svd eps heps fit hfit hsvd
+
+/-- … and for the quaternion kernel (`Model.quaternion`, the model of `get_rotation_matrix_quaternion`) under the contract of
+    `np.linalg.eigh` at the key matrix of the centred sets (`Props.C06.quat_optimal`, over ℝ). -/
+theorem kernel_optimal_from_C06_quaternion (eig : Mat4 ℝ → List (ℝ × Vec4 ℝ)) (eps : ℝ) (heps : 0 ≤ eps)
+    (fit : List (Vec3 ℝ × Vec3 ℝ)) (hfit : fit ≠ [])
+    (heig : Proofs.Guards.EigOK eig (centre (fit.map (·.1))) (centre (fit.map (·.2)))) :
+    KernelOptimalAt (Model.quaternion eig eps) fit :=
+  kernelOptimalAt_quaternion eig eps heps fit hfit heig
+
+/-- **Both methods, no kernel hypothesis left.**  When an i-RMSD routine returns a value, then under the contracts of
+    `np.linalg.svd` and `np.linalg.eigh` at the matrices the kernels pass to them (for the centred pair lists of this run)
+    the radicand computed with EITHER method is the minimum over all rigid motions of the mean squared deviation of the
+    definition's pairs — in particular both methods give the same radicand. -/
+theorem irmsd_is_min_both_methods (dl rl : List Str) (dec ref : List Atom) (hd : RawAgrees dl dec) (hr : RawAgrees rl ref)
+    (hc : Consistent dec ref) (c : Rat) (enforce : Bool) (fit ev : List Pair)
+    (hrun : irmsdFast dl rl (.ok dec) (.ok ref) .compute c true enforce = .value fit ev ∨
+            irmsdSql (.ok dec) (.ok ref) none c = .value fit ev)
+    (svd : Mat3 ℝ → Mat3 ℝ × Vec3 ℝ × Mat3 ℝ) (eig : Mat4 ℝ → List (ℝ × Vec4 ℝ)) (eps : ℝ) (heps : 0 ≤ eps)
+    (hsvd : Proofs.Guards.SvdOK svd (centre ((realPairs (coordsOf fit)).map (·.1))) (centre ((realPairs (coordsOf fit)).map (·.2))))
+    (heig : Proofs.Guards.EigOK eig (centre ((realPairs (coordsOf fit)).map (·.1))) (centre ((realPairs (coordsOf fit)).map (·.2)))) :
+    ∃ m : ℝ, radicand (Model.kabsch svd eps) (realPairs (coordsOf fit)) (realPairs (coordsOf ev)) = .ok m ∧
+      radicand (Model.quaternion eig eps) (realPairs (coordsOf fit)) (realPairs (coordsOf ev)) = .ok m ∧
+      IsMinMsd m (realPairs (coords (interfacePairs dec ref c))) := by
+  have hne : fit ≠ [] := by
+    rcases hrun with h | h
+    · have := irmsd_pairs_fast dl rl dec ref hd hr hc .compute (Or.inl rfl) c enforce
+      rw [h] at this; exact this.1
+    · have := irmsd_pairs_sql dec ref hc c
+      rw [h] at this; exact this.1
+  have hne' : realPairs (coordsOf fit) ≠ [] := realPairs_ne_nil (by simpa [coordsOf] using hne)
+  obtain ⟨m, hm, hmin⟩ := irmsd_is_min dl rl dec ref hd hr hc c enforce (Model.kabsch svd eps) fit ev hrun
+    (kernel_optimal_from_C06 svd eps heps _ hne' hsvd)
+  obtain ⟨m', hm', hmin'⟩ := irmsd_is_min dl rl dec ref hd hr hc c enforce (Model.quaternion eig eps) fit ev hrun
+    (kernel_optimal_from_C06_quaternion eig eps heps _ hne' heig)
+  have : m' = m := by
+    obtain ⟨⟨g, hg, hgm⟩, hlo⟩ := hmin
+    obtain ⟨⟨g', hg', hgm'⟩, hlo'⟩ := hmin'
+    exact le_antisymm (hgm ▸ hlo' g hg) (hgm' ▸ hlo g' hg')
+  exact ⟨m, hm, this ▸ hm', hmin⟩
+
+/-- the same for the L-RMSD: with either method the radicand is a fit-then-evaluate value of the definition's pair lists
+    (the two methods may pick different optimal motions when the fitted set does not span a plane) -/
+theorem lrmsd_is_fit_then_eval_both_methods (dl rl : List Str) (dec ref : List Atom) (hd : RawAgrees dl dec) (hr : RawAgrees rl ref)
+    (hc : Consistent dec ref) (enforce : Bool) (fit ev : List Pair)
+    (hrun : lrmsdFast dl rl (.ok dec) (.ok ref) .compute true enforce = .value fit ev ∨
+            lrmsdSql (.ok dec) (.ok ref) enforce = .value fit ev)
+    (svd : Mat3 ℝ → Mat3 ℝ × Vec3 ℝ × Mat3 ℝ) (eig : Mat4 ℝ → List (ℝ × Vec4 ℝ)) (eps : ℝ) (heps : 0 ≤ eps)
+    (hsvd : Proofs.Guards.SvdOK svd (centre ((realPairs (coordsOf fit)).map (·.1))) (centre ((realPairs (coordsOf fit)).map (·.2))))
+    (heig : Proofs.Guards.EigOK eig (centre ((realPairs (coordsOf fit)).map (·.1))) (centre ((realPairs (coordsOf fit)).map (·.2)))) :
+    (∃ m : ℝ, radicand (Model.kabsch svd eps) (realPairs (coordsOf fit)) (realPairs (coordsOf ev)) = .ok m ∧
+      IsFitThenEval m (realPairs (coords (ligandFitPairs dec ref))) (realPairs (coords (ligandEvalPairs dec ref)))) ∧
+    (∃ m : ℝ, radicand (Model.quaternion eig eps) (realPairs (coordsOf fit)) (realPairs (coordsOf ev)) = .ok m ∧
+      IsFitThenEval m (realPairs (coords (ligandFitPairs dec ref))) (realPairs (coords (ligandEvalPairs dec ref)))) := by
+  have hne : fit ≠ [] := by
+    rcases hrun with h | h
+    · have := lrmsd_pairs_fast dl rl dec ref hd hr hc .compute (Or.inl rfl) enforce
+      rw [h] at this; exact this.1
+    · have := lrmsd_pairs_sql dec ref hc enforce
+      rw [h] at this; exact this.1
+  have hne' : realPairs (coordsOf fit) ≠ [] := realPairs_ne_nil (by simpa [coordsOf] using hne)
+  exact ⟨lrmsd_is_fit_then_eval dl rl dec ref hd hr hc enforce (Model.kabsch svd eps) fit ev hrun
+      (kernel_optimal_from_C06 svd eps heps _ hne' hsvd),
+    lrmsd_is_fit_then_eval dl rl dec ref hd hr hc enforce (Model.quaternion eig eps) fit ev hrun
+      (kernel_optimal_from_C06_quaternion eig eps heps _ hne' heig)⟩
 
 /-- L-RMSD of identical structures, at the level the kernel hypothesis supports without a rank condition: the optimal
     superposition of the (identical) fitting pairs has deviation 0, and the identity motion — one of the optimal motions —
